@@ -394,6 +394,29 @@ theorem call_ok (dt : DType F) (hwf : dt.WF) (v : PVal F) :
     | wrongType => trivial
     | other c => exact call_total dt v c h
 
+/-- a parameter always holds a value of its type: the invariant survives every driver update (converted, or refused and
+the old value kept) and every `change` request (accepted into the value set, or refused) -/
+theorem held_ofType_step (dt : DType F) (hwf : dt.WF) (held : PVal F) (h : OfType dt held) (ev : ParamEvent F) :
+    OfType dt (holdStep dt held ev) := by
+  cases ev with
+  | update v =>
+    simp only [holdStep]
+    split
+    · rename_i r hr; exact call_ofType_sound dt hwf v r hr
+    · exact h
+  | change j =>
+    simp only [holdStep]
+    split
+    · rename_i r hr; exact inSet_ofType dt hwf r (change_sound dt hwf j held r hr)
+    · exact h
+
+theorem held_ofType (dt : DType F) (hwf : dt.WF) (held : PVal F) (h : OfType dt held) (evs : List (ParamEvent F)) :
+    OfType dt (holdRun dt held evs) := by
+  unfold holdRun
+  induction evs generalizing held with
+  | nil => exact h
+  | cons ev evs ih => exact ih (holdStep dt held ev) (held_ofType_step dt hwf held h ev)
+
 /-- the result clause for whatever the command function returned -/
 theorem command_result_ok (resT : Option (DType F)) (hwf : ∀ dt, resT = some dt → dt.WF) (v r : PVal F)
     (h : commandResult resT v = .ok r) : ResultOK resT v (.ok r) := by
@@ -776,6 +799,13 @@ example : ((judgeConv exTree exHeld (.ok exHeld) (some (.ok exHeld))).isEmpty &&
     (judgeConv (F := Rat) (.int 0 5) (.str "3") (.ok (.int 3)) (some (.ok (.int 3)))).contains "denotes:call" &&
     (judgeConv (F := Rat) (.int 0 5) (.int 3) (.ok (.str "3")) (some (.ok (.str "3")))).contains "oftype:call") = true := by
   decide +kernel
+
+/-- `held_ofType` on the example: after a driver update outside the limits and two change requests the parameter holds
+a value of its type -/
+example : OfType exTree
+    (holdRun exTree exPrev [.update exHeld, .change (.obj [("a", .arr []), ("b", .int 1), ("c", .int 0)]), .change exWire,
+      .update .none]) :=
+  held_ofType exTree exTree_wf exPrev (inSet_ofType exTree exTree_wf exPrev exPrev_inSet) _
 
 /-- the helper on a `repr` that fails for big values (as `repr(int)` beyond 4300 digits): a text in every case, a cut
 one for long texts; and the error that leaves the method is the one meant -/
